@@ -121,6 +121,19 @@ def step (check03 check05 : Bool) (s : DState) (toks : List String) (rhs : Strin
     match h.toNat? with
     | some h => ({ s with hashes := (k, h) :: s.hashes }, .ok)
     | none => (s, .bad "defkey")
+  | ["timedget", _k, want] =>
+    -- real-timer scenario (no model comparison): an acknowledged value read back after the ring settled
+    if check03 && rhs != want && !rhs.startsWith "unavailable:" then
+      (s, .spec s!"acknowledged write {want} reads back as {rhs} after a leave inside a join window (ring settled)")
+    else (s, .ok)
+  | ["timedquiet"] =>
+    -- real-timer scenario (no model comparison): placement on the implementation's dump after settling
+    let (_, d) := splitRhs rhs
+    if check05 then
+      match placementCheck s.hashes d with
+      | some w => (s, .spec w)
+      | none => (s, .ok)
+    else (s, .ok)
   | ["quiet"] =>
     -- rhs = `ok | dump` of the implementation at a quiescent point
     let (_, d) := splitRhs rhs
